@@ -17,20 +17,39 @@ def kind_of(tok):
 
 
 def enum_text(rng, vals):
-    style = rng.choice(["line", "multi", "multi-comments"])
+    style = rng.choice(["line", "multi", "multi-comments", "multi-standalone"])
     if style == "line":
         return "[" + rng.choice(["", " "]) + ", ".join(vals) + rng.choice(["", " "]) + "]", [""] * len(vals)
     lines, comments = ["["], []
     for i, v in enumerate(vals):
         c = ""
         cm = ""
-        if style == "multi-comments" and rng.random() < 0.6:
+        if style == "multi-standalone" and rng.random() < 0.5:
+            sc = rng.choice(["lead", "a group", "x"])
+            lines.append("  " + rng.choice(["// " + sc, "/* " + sc + " */"]))
+            comments.append(("comment", sc))
+        if style in ("multi-comments", "multi-standalone") and rng.random() < 0.6:
             c = rng.choice(["first", "a value", "x y"])
             cm = rng.choice([" // " + c, " /* " + c + " */"])
         lines.append("  " + v + ("," if i < len(vals) - 1 else "") + cm)
         comments.append(c)
+    if style == "multi-standalone" and rng.random() < 0.3:
+        lines.append("  // tail")
+        comments.append(("comment", "tail"))
     lines.append("]")
     return rng.choice(["\n", "\r\n"]).join(lines), comments
+
+
+def expected_values(vals, comments):
+    """Values(): the literals in source order, stand-alone comments as entries of their own"""
+    out, it = [], iter(vals)
+    for c in comments:
+        if isinstance(c, tuple):
+            out.append("comment::%s" % c[1])
+        else:
+            v = next(it)
+            out.append("%s:%s:%s" % (kind_of(v), v, c))
+    return out
 
 
 ATOMS = ["a", "b", "[a-c]", "\\d", "x", "-", "_", " ", "\\.", "\\/", "[0-9]", "(ab|cd)", "\\\\", "z"]
@@ -78,7 +97,7 @@ def run(ctx):
         ctx.evaluations += 1
         if len(vals) >= 3:
             ctx.nontrivial.add(text)
-        wantV = "V:" + "|".join("%s:%s:%s" % (kind_of(v), v, c) for v, c in zip(vals, comments))
+        wantV = "V:" + "|".join(expected_values(vals, comments))
         if r[0] != "ok" or r[1] != str(len(text.rstrip().encode())):
             if len(ctx.violations) < 40:
                 ctx.report("enum rule %r: Check %s, Len %s (text is %d bytes)" % (text[:80], r[0], r[1], len(text.encode())), "c18e:" + text, {"enum": text, "result": r}, case=text)
@@ -119,6 +138,53 @@ def run(ctx):
             if ((x == "ok") != (y == "ok") or (x == "ok") != want) and len(ctx.violations) < 40:
                 ctx.report("document %s against enum %s: named rule %s, inline list %s, membership %s" % (p, vals, x, y, want), "c18m:" + text + p,
                            {"enum": text, "values": vals, "document": p, "named": x, "inline": y, "expected": want}, case=text)
+    # one rule object / one regex type object used by several schemas one after the other: every schema behaves as with a fresh object,
+    # and the rule's Values / GetAST stay what they were
+    slines, smeta = [], []
+    for vals, text, comments in ecases[: (150 if quick else 3000)]:
+        k = rng.choice([2, 2, 3])
+        exs = [rng.choice(vals) for _ in range(k)]
+        schemas = [rng.choice(["%s // {enum: @E}", "{\"k\": %s // {enum: @E}\n}", "[%s // {enum: @E}\n]"]) % e for e in exs]
+        probes = [rng.choice(['%s', '{"k": %s}', '[%s]']) % v for v in rng.sample(VALUES, 5)] + [v for v in vals[:3]] + ['{"k": %s}' % vals[0], '[%s]' % vals[-1]]
+        slines.append(json.dumps({"enum": text, "schemas": schemas, "probes": probes}))
+        for sc in schemas:
+            slines.append(json.dumps({"enum": text, "schemas": [sc], "probes": probes}))
+        smeta.append((text, schemas, "|".join(expected_values(vals, comments))))
+    for _ in range(60 if quick else 1500):
+        p = rand_pattern(rng)
+        try:
+            re.compile(p)
+        except re.error:
+            continue
+        schemas = ['"x" // {type: "@T"}', '{"k": @T}', '[@T]'][: rng.choice([2, 3])]
+        probes = [json.dumps(x) for x, _ in sample_strings(rng, p)[:8]] + ['{"k": "ab"}', '["a1"]', '{"k": ""}']
+        slines.append(json.dumps({"type": ["@T", "/%s/" % p], "schemas": schemas, "probes": probes}))
+        for sc in schemas:
+            slines.append(json.dumps({"type": ["@T", "/%s/" % p], "schemas": [sc], "probes": probes}))
+        smeta.append(("/%s/" % p, schemas, None))
+    souts = vc.impl_parallel(["shared"], slines)
+    i = 0
+    for text, schemas, wantvals in smeta:
+        sh = json.loads(souts[i])
+        fresh = [json.loads(souts[i + 1 + j]) for j in range(len(schemas))]
+        i += 1 + len(schemas)
+        ctx.evaluations += 1
+        what = None
+        if sh and isinstance(sh[0], str) and sh[0].startswith("PANIC") or any(isinstance(x, str) and x.startswith("PANIC") for x in sh):
+            what = "panic: %s" % [x for x in sh if isinstance(x, str) and x.startswith("PANIC")][:1]
+        else:
+            for j in range(len(schemas)):
+                if sh[1 + 2 * j] != fresh[j][1]:
+                    what = "schema #%d %r behaves differently after the object was used by %d other schema(s): %s vs fresh %s" % (j, schemas[j], j, sh[1 + 2 * j][:6], fresh[j][1][:6])
+                    break
+                if sh[2 + 2 * j] != sh[0]:
+                    what = "the rule's Values/GetAST changed after schema #%d used it: %s, before %s" % (j, sh[2 + 2 * j][:120], sh[0][:120])
+                    break
+            if what is None and wantvals is not None and not sh[0].startswith(wantvals + "|A") and sh[0] != wantvals:
+                what = "Values of the rule %s, the source lists %s" % (sh[0][:120], wantvals[:120])
+        if what and len(ctx.violations) < 40:
+            ctx.report("shared %s %r: %s" % ("enum rule" if wantvals is not None else "regex type", text[:60], what), "c18s:" + text + "|".join(schemas), {"object": text, "schemas": schemas, "result": sh}, case=text)
+    ctx.extra["shared_object_cases"] = len(smeta)
     # ---------- regex ----------
     pats = [rand_pattern(rng) for _ in range(300 if quick else 6000)] + ["a\\\\", "^C:\\\\", "a\\/b", "[a-c]+\\\\"]
     rlines = [json.dumps({"text": "/%s/%s" % (p, rng.choice(["", " trailing text", "\nNEXT /x/"]))}) for p in pats]
